@@ -20,3 +20,30 @@ Theorem c07_eliminated_iff_in_no_row n bound nlp tshift elem bc :
   (PositiveMap.find e (ptr_of W) = None <-> ~ in_some_row elem bc e).
 Proof. intros H1 H2 H3 H4 H5 H6 H7 W e. exact (update_min_none n bound nlp tshift elem bc H1 H2 H3 H4 H5 H6 H7 W e). Qed.
 Print Assumptions c07_eliminated_iff_in_no_row.
+
+From SymfcV Require Import Cutoff CutoffThm.
+
+(** FCCutoff.combinations2 / combinations3_all / combinations4_all (model Cutoff.cut_combos, compared with
+    the implementation entry by entry) list exactly the strictly increasing index tuples of the requested
+    length below 3N whose atoms are mutually near -- for every symmetric reflexive relation, every N, every
+    k >= 1. *)
+Theorem c07_combinations_spec (nr : near) N k c :
+  (forall i j, nearb nr i j = nearb nr j i) -> (forall i, i < N -> nearb nr i i = true) -> 1 <= k ->
+  (In c (cut_combos nr N k) <-> length c = k /\ increasing c /\ in_range3 N c /\ mutually_near nr c).
+Proof. intros S R Hk. exact (cut_combos_spec nr N S R k c Hk). Qed.
+Print Assumptions c07_combinations_spec.
+
+(** enlarging the cutoff never removes a combination ... *)
+Theorem c07_monotone (nr nr' : near) N k c : 1 <= k ->
+  (forall i j, nearb nr i j = nearb nr j i) -> (forall i, i < N -> nearb nr i i = true) ->
+  (forall i j, nearb nr' i j = nearb nr' j i) -> (forall i, i < N -> nearb nr' i i = true) ->
+  (forall i j, nearb nr i j = true -> nearb nr' i j = true) ->
+  In c (cut_combos nr N k) -> In c (cut_combos nr' N k).
+Proof. exact (cut_combos_monotone nr nr' N k c). Qed.
+Print Assumptions c07_monotone.
+
+(** ... and a cutoff beyond every distance gives exactly the combinations used without cutoff *)
+Theorem c07_large_cutoff (nr : near) N k c : 1 <= k -> (forall i j, nearb nr i j = true) ->
+  (In c (cut_combos nr N k) <-> In c (entire_combos N k)).
+Proof. exact (cut_combos_all_near nr N k c). Qed.
+Print Assumptions c07_large_cutoff.
